@@ -33,6 +33,7 @@ RULE += (' Also: key comparisons that fail once; keys not equal to themselves (o
 RULE += (' Also: the consumer drops the groupby object and keeps group handles.')
 RULE += (' Also: class sources without aclose.')
 RULE += (' Also: sources that set themselves up in __aiter__ and re-iterables handing out a separate iterator.')
+RULE += (' Also: keys whose comparisons answer with truthy / falsy objects instead of bools.')
 ASSUMPTIONS = ["itertools.groupby of the running interpreter is the reference", "keys with reflexive equality only"]
 EXHAUSTIVE_SUBSPACES = "all operation sequences starting with 'adv' of length <= 5 (thorough: 6) over {adv, g-1, g-2, g0} on 12 fixed inputs"
 EXHAUSTIVE = {"quick": False, "thorough": False}
@@ -64,7 +65,7 @@ def cases(tier, seed, shard, nshards):
                        else rng.choice(["c-1", "c-1", "c-2", "c0"]))
         if rng.random() < 0.15 and len(ops) > 2:
             ops.insert(rng.randrange(1, len(ops)), "drop")
-        case = {"keys": keys, "key": rng.choice([None, "half", "ahalf", "aident", "noneodd", "anoneodd", "tuple", "onesided", "aonesided", "lenient", "alenient", "samenan", "asamenan", "freshnan", "afreshnan"]), "ops": ops,
+        case = {"keys": keys, "key": rng.choice([None, "half", "ahalf", "aident", "noneodd", "anoneodd", "tuple", "onesided", "aonesided", "lenient", "alenient", "numberlike", "anumberlike", "samenan", "asamenan", "freshnan", "afreshnan"]), "ops": ops,
                 # (... a source that sets itself up when asked for its iterator; a re-iterable that hands out a separate iterator)
                 "flav": rng.choice(["list", "async_gen", "async_class", "sync_iter", "async_class_bare", "async_class_lazy", "async_iterable"]), "susp": rng.choice([0, 0, 1])}
         if rng.random() < 0.06:
@@ -155,9 +156,44 @@ class LenientKey:
         return f"LenientKey({self.tag})"
 
 
+class Verdict:
+    """What ``NumberLikeKey.__eq__`` answers: an object with a truth value of its own (an array-library boolean, a
+    three-valued logic result) - never the ``True`` / ``False`` singletons."""
+
+    def __init__(self, yes):
+        self.yes = yes
+
+    def __bool__(self):
+        return self.yes
+
+    def __repr__(self):
+        return f"Verdict({self.yes})"
+
+
+class NumberLikeKey:
+    """A key whose comparisons answer with truthy / falsy OBJECTS (``1`` / ``0``, a ``Verdict``) instead of bools - a
+    lawful equality all the same: it is the truth value of the answer that counts.  A fresh key object per item."""
+    __hash__ = None
+
+    def __init__(self, v):
+        self.v = v
+
+    def __eq__(self, other):
+        same = isinstance(other, NumberLikeKey) and self.v == other.v
+        return (1 if same else 0) if self.v % 2 else Verdict(same)
+
+    def __ne__(self, other):
+        return Verdict(not (self == other))
+
+    def __repr__(self):
+        return f"NumberLikeKey({self.v})"
+
+
 def _key_impl(kname):
     if kname is None:
         return None
+    if kname.endswith("numberlike"):
+        return lambda x: NumberLikeKey(x.key // 2)
     if kname.endswith("lenient"):
         return lambda x: LenientKey(x.key // 2)
     if kname.endswith("samenan"):
